@@ -20,7 +20,8 @@ THEOREMS = [P + t for t in (
     "elf_history_irrelevant", "elf_page_spec",
     "dd_desc_position", "dd_locate_single", "sadump_position", "sadump_walk_spec",
     "lkcd_get_spec", "lkcd_init_inv",
-    "elf_counts_plain", "elf_counts_xnum", "elf_loads_all", "elf_xnum_spec")]
+    "elf_counts_plain", "elf_counts_xnum", "elf_loads_all", "elf_xnum_spec",
+    "lkcd_fault_spec", "lkcd_fault_silent", "lkcd_fault_recovers")]
 GEOM = ["file.format", "arch.byte_order", "arch.ptr_size", "arch.page_size", "max_pfn"]
 FAIL_TOKENS = ("nodata", "notimpl", "corrupt", "ioerr", "eof", "xlat", "oob", "no-layout")
 
@@ -809,12 +810,45 @@ def build_ops(R, L, zx):
             frames.append(("range", "rdc %d %d %d" % (as_, lo, 0), as_, lo, 0))
     # geometry before or after the reads (LKCD: max_pfn indexes the whole stream)
     k = rng.choice([0, len(frames) // 2, len(frames)]) if L.kind != "lkcd" else rng.choice([0, 7, len(frames) // 2, len(frames)])
-    return ops + frames[:k] + geom + frames[k:]
+    body = frames[:k] + geom + frames[k:]
+    if L.kind == "lkcd" and not L.dup and L.info["recs"]:
+        body = fault_episodes(R, L, body)
+    return ops + body
+
+
+def fault_episodes(R, L, body):
+    """LKCD: transient failures of a descriptor read (EIO from pread -> KDUMP_ERR_SYSTEM, or KDUMP_ERR_BUSY) while the
+    stream is being indexed: `fault <descriptor offset>`, the operation during which it may strike (a read of a frame
+    that was not read before, or max_pfn), `unfault`, and the same operation again.  Everything after the failed call
+    must be answered as if nothing had happened."""
+    rng, ps = R.rng, L.ps
+    desc = {r["pfn"]: r["desc_off"] for r in L.info["recs"]}
+    offs = [r["desc_off"] for r in L.info["recs"]] + [L.info["end"]]
+    out, touched, n, first = [], set(), 0, True
+    maxep = 3 if R.tier == "quick" else 6
+    for op in body:
+        cand = None
+        if op[0] == "frame" and op[4] == ps and op[3] % ps == 0 and op[3] // ps in desc and op[3] // ps not in touched:
+            cand = desc[op[3] // ps] if rng.random() < 0.6 else rng.choice(offs)
+        elif op[0] == "attr" and op[2] == "max_pfn":
+            cand = rng.choice(offs)
+        if cand is not None and n < maxep and rng.random() < (0.5 if first else 0.1):
+            n += 1
+            out.append(("fault", "fault %d %d" % (cand, rng.randrange(2))))
+            out.append(op + (True,))
+            out.append(("unfault", "unfault"))
+        if cand is not None:
+            first = False
+        out.append(op)
+        if op[0] in ("frame", "range"):
+            touched |= set(range(op[3] // ps, (op[3] + max(op[4], 1) - 1) // ps + 1))
+    return out
 
 
 class Stats:
     def __init__(self):
         self.kinds, self.nontrivial, self.nev, self.traces, self.per_kind, self.samples = {}, 0, 0, 0, {}, []
+        self.faults = {}
 
 
 def run_batch(R, exe, first, count, seq, S):
@@ -834,7 +868,10 @@ def run_batch(R, exe, first, count, seq, S):
         if len(S.samples) < 5:
             S.samples.append(dict(kind=L.kind, **{k: v for k, v in L.describe().items()
                                                    if k in ("version", "bits", "be", "ps", "machine", "sakind", "ndisks", "mode")}))
-        for zx in ((0, 1) if rng.random() < 0.5 else (1, 0)):
+        zxs = (0, 1) if rng.random() < 0.5 else (1, 0)
+        if cls is ElfXL and R.tier == "quick":
+            zxs = zxs[:1]                    # 65 600 layout lines per context: one setting per run in the quick tier
+        for zx in zxs:
             for op in build_ops(R, L, zx):
                 lines.append(op[1])
                 meta.append((L.li, zx) + op)
@@ -860,6 +897,18 @@ def run_batch(R, exe, first, count, seq, S):
         elif typ == "set":
             if o != "set ok":
                 what = "cannot set file.zero_excluded: " + o
+        elif typ == "fault":
+            if o != "fault ok":
+                what = "harness cannot arm the fault: " + o
+        elif typ == "unfault":
+            if o not in ("fault fired", "fault pending"):
+                what = "harness out of step at unfault: " + o
+        elif typ == "attr" and len(m) > 5 and i + 1 < len(impl) and impl[i + 1] == "fault fired":
+            # the scan for max_pfn was hit by the transient failure: the call must fail (the value cannot be known yet)
+            S.nev += 1
+            S.faults["attr"] = S.faults.get("attr", 0) + 1
+            if o.startswith("attr ok"):
+                what = "lkcd dump: max_pfn was delivered ('%s') although the descriptor read at %s failed during the scan" % (o, obs_meta[i - 1][3])
         elif typ == "attr":
             key = m[4]
             val = (o.split(" ", 2)[2] if o.startswith("attr ok ") else o).strip()
@@ -880,6 +929,14 @@ def run_batch(R, exe, first, count, seq, S):
             S.kinds[kk] = S.kinds.get(kk, 0) + 1
             ok = any((got_st in s_ if s_ is not None else got_st != "ok") and got_len == len(d_) and got_crc == zlib.crc32(d_)
                      for s_, d_ in outcomes)
+            if len(m) > 7 and i + 1 < len(impl) and impl[i + 1] == "fault fired":
+                # the injected failure struck during this call: it is reported as such, nothing is delivered
+                kind = ["system", "busy"][int(obs_meta[i - 1][3].split()[2])]
+                ok = got_st == kind and got_len == 0
+                st, data = {kind}, b""
+                S.faults["read"] = S.faults.get("read", 0) + 1
+            elif len(m) > 7:
+                S.faults["pending"] = S.faults.get("pending", 0) + 1
             if st == {"ok"} and ln:
                 S.nontrivial += 1
             if not ok:
@@ -893,7 +950,7 @@ def run_batch(R, exe, first, count, seq, S):
     impl_na = [o for m, o in zip(obs_meta, impl) if m[2] != "attr"]
     mism, model_canon = None, []
     for m, d in zip(dm, drv):
-        if m[2] in ("open", "set"):
+        if m[2] in ("open", "set", "fault", "unfault"):
             model_canon.append(d)
         else:
             st, n, crc = eval_model(layouts[m[0]], d, m[5], m[6])
@@ -919,7 +976,17 @@ def run_batch(R, exe, first, count, seq, S):
         i, msg = fail
         m = obs_meta[min(i, len(obs_meta) - 1)]
         L = layouts[m[0]]
+        # the transient failures injected earlier in the same context (with the call each one was armed for)
+        hist, mi = [], min(i, len(obs_meta) - 1)
+        for j in range(mi):
+            q = obs_meta[j]
+            if q[0] == m[0] and q[1] == m[1] and q[2] == "fault":
+                hist.append("%s ; %s -> %s ; %s" % (q[3], obs_meta[j + 1][3], impl[j + 1] if j + 1 < len(impl) else "?",
+                                                    impl[j + 2] if j + 2 < len(impl) else "?"))
+        if hist:
+            msg += " [after a transient failure of a descriptor read earlier in this context: %s]" % ([h for h in hist if h.endswith("fault fired")] or hist)[-1]
         fail_out = (msg, dict(stream="fmt/dump", layout=L.describe(), zero_excluded=m[1], query=m[3], files=L.paths,
+                              injected_faults=hist,
                               model_answer=(model_canon[dm.index(m)] if m in dm and dm.index(m) < len(model_canon) else None),
                               stderr=err[-1500:]))
     elif mism is not None:
@@ -940,7 +1007,9 @@ def run(R):
     facts, changed = R.extract()
     proof = R.prove(["Kdf.Props.C01"], THEOREMS)
     nlay = 30 if R.tier == "quick" else 1500
-    exe = R.build_harness("s_fmt", ["s_fmt.c"])
+    lib, cflags = R.build_lib()
+    exe = R.build_harness("s_fmt", ["s_fmt.c"], lib=lib, cflags=cflags + ["-DFMT_FAULT"],
+                          ldflags=["-Wl,--wrap=_kdumpfile_priv_fcache_pread"])
     S, seq, fail, mism = Stats(), {}, None, None
     for first in range(0, nlay, 150):
         fail, mism = run_batch(R, exe, first, min(150, nlay - first), seq, S)
@@ -948,7 +1017,6 @@ def run(R):
             break
     # ---- uncompress_rle directly
     rl, rwant = rle_cases(R)
-    lib, cflags = R.build_lib()
     exe2 = R.build_harness("s_dump", ["s_dump.c"], lib=lib, cflags=cflags)
     rc2, out2, err2 = R.run_harness(exe2, stdin_text="\n".join(rl) + "\n")
     rimpl = kdf.obs(out2)
@@ -984,17 +1052,22 @@ def run(R):
                              "harness/s_fmt.c, harness/s_dump.c, gcc + ASan/UBSan", "qsort sorts (driver uses mergeSort)"],
                broken_theorems=proof["broken"], theorems=THEOREMS,
                evaluations=S.nev + len(rimpl), distinct_nontrivial=S.nontrivial, dumps=S.per_kind, case_kinds=S.kinds,
-               rle_cases=len(rimpl),
+               rle_cases=len(rimpl), lkcd_transient_faults=S.faults,
                rule="generated dumps of all five formats (word size, byte order, page size, header version, per-page compression incl. stored streams "
                     "and LZO, exclusion, split/flattened files, disk sets in any file order, unordered LKCD streams with far-apart frames); in a fresh "
                     "context per zero_excluded setting: every frame of the dump and its neighbourhood, unaligned page-crossing ranges, range ends, "
-                    "zero-length reads and the five geometry attributes, compared with the image/layout the generator encoded; non-trivial = "
+                    "zero-length reads and the five geometry attributes, compared with the image/layout the generator encoded; one ELF core per batch "
+                    "with >= 65535 program headers (extended numbering); LKCD contexts with up to 3 (6) one-shot transient failures of a descriptor "
+                    "read during the stream scan (frame read or max_pfn), the failed call repeated and all later reads checked as usual; non-trivial = "
                     "(dump, address space, address, length, zero_excluded) queries whose expected answer is data",
                traces_validated_against_impl=S.traces + len(rmodel),
                correspondence_first_diff=(mism or {}).get("index") if mism else rmism,
                samples=S.samples)
     assum = ["no address arithmetic of the lookups wraps at 2^64 (model is over Nat)",
-             "header parsing (geometry) is evaluated on the implementation only, not modelled",
+             "header parsing (geometry) is evaluated on the implementation only, not modelled (except the ELF section/program "
+             "header counts incl. extended numbering: elfCounts)",
+             "transient read failures (LKCD) are injected at the cross-TU call lkcd.c -> fcache_pread() for page descriptor reads "
+             "(KDUMP_ERR_SYSTEM with errno EIO, or KDUMP_ERR_BUSY), not at the pread system call; page data reads are not faulted",
              "real zlib/snappy/zstd decompressors are outside the model; the model locates the compressed bytes",
              "LKCD block table abstracted to a finite map keyed by the frame number",
              "ELF KVADDR reads outside every LOAD segment need address translation (external): any failure status accepted"]
